@@ -783,7 +783,7 @@ def jobs(tier, seed):
     for k in ([1, 2] if not thorough else [1, 2, 3]):
       out.append(Job('%s_k%d' % (fn, k), batch_ops, dict(k=k, fn=fn),
                      timeout=3000, cost=10 * 4**k))
-  for idx in ([0, 1] if not thorough else [0, 1, 2, 3]):
+  for idx in ([0, 1] if not thorough else [0, 1]):
     out.append(Job('toy_F%d' % TOY[idx][0], toy_field,
                    dict(idx=idx, ops=['Add', 'Subtract', 'AddJacobian',
                                       'Double']), timeout=3000, cost=60))
